@@ -187,7 +187,7 @@ def s4(ck, an):
     ord_before(ck, fst, "S4.lead-resolved-at-execution-time", lat, mk, "_process_latent_events() (which advances the clock)", "building the request (which resolves the chain's lead)")
     # the old lead (held, no longer targeted) is always closed, however small: the decision table of the trade loop (C12) says so
     from rules import C12, ledger
-    C12.run(ledger._Only(Renamed(ck, "S4:"), {"exempts-untargeted", "threshold-strict", "no-skip-before-the-loop"}), an, "quick")
+    C12.run(ledger._Only(Renamed(ck, "S4:"), {"exempts-untargeted", "threshold-strict", "no-skip-before-the-loop", "no-loop-exit"}), an, "quick")
     fa = an.fa("Rebalancing.make_trades")
     # imbalance includes current holdings (so the old lead appears with -holding): C03-S2
     from rules import C03
